@@ -432,8 +432,8 @@ Proof.
   apply comments_inert_upto.
   - reflexivity.
   - intros s t H. exact H.
-  - intros s t [x e] H. unfold same_vars in *. cbn. rewrite H.
-    destruct (teval (t_vars t) e); [|exact H]. destruct (lookup x (t_vars t)); [exact H|]. cbn. rewrite H. reflexivity.
+  - intros s t [x e] H. unfold same_vars in *. unfold texec. rewrite H.
+    destruct (teval (t_vars t) e); [|exact H]. destruct (lookup x (t_vars t)); [exact H|]. reflexivity.
 Qed.
 
 (* ---------- judge ---------- *)
@@ -508,7 +508,7 @@ Proof.
   apply andb_prop in Es as [Es1 Es2]. apply String.eqb_eq in Es1, Es2.
   destruct (is_perr (o_res M)); [discriminate|].
   destruct (is_perr (o_res D)) eqn:Ep.
-  { destruct (kf_list_dash (doc_of jd)); [discriminate|]. destruct (String.eqb stream "plain"); discriminate. }
+  { destruct (negb (String.eqb stream "plain")); [discriminate|]. destruct (kf_list_dash (doc_of jd)); discriminate. }
   destruct (ns_checks (doc_of jd) D (ns_names (doc_of jd)) rest) as [nsr|] eqn:En; [|discriminate].
   destruct (sx_eqb (o_res D) (o_res M)) eqn:Er; cbn [negb]; [|discriminate].
   destruct (Nat.eqb (List.length (o_subs D)) (List.length (ns_names (doc_of jd)))) eqn:El; cbn [negb]; [|discriminate].
@@ -530,10 +530,85 @@ Proof.
   destruct (negb _); [discriminate|].
   destruct (is_perr (o_res M)); [discriminate|].
   destruct (is_perr (o_res D)) eqn:Ep.
-  - destruct (kf_list_dash (doc_of jd)) eqn:Ek.
-    + intros _. split; [reflexivity|]. exists D, M, rest. auto.
-    + destruct (String.eqb stream "plain"); discriminate.
+  - destruct (negb (String.eqb stream "plain")); [discriminate|].
+    destruct (kf_list_dash (doc_of jd)) eqn:Ek; [|discriminate].
+    intros _. split; [reflexivity|]. exists D, M, rest. auto.
   - destruct (ns_checks _ _ _ _) as [nsr|]; [|discriminate].
     destruct (negb _); [discriminate|]. destruct (negb _); [discriminate|].
     destruct (table_check _ _ _); destruct nsr; discriminate.
+Qed.
+
+(* the verdict `comment-resets-ans`: every table of the document equals the table of its code-only document, or
+   (only where the model says that the last line the interpreter executed is a comment) that table with ans := Empty *)
+Definition tok (c : bool) (got want : list sx) : Prop :=
+  got = want \/ (c = true /\ got = set_ans_empty want).
+
+Fixpoint ns_spec_kf (d : list (elem jstmt string)) (D : dobs) (ns : list string) (rest : list dobs) : Prop :=
+  match ns, rest with
+  | [], [] => True
+  | n :: ns', Na :: Nb :: rest' =>
+      o_src Na = ns_only n d /\ o_src Nb = ns_flat n d /\
+      (exists t ta, lookup n (o_subs D) = Some t /\ lookup n (o_subs Na) = Some ta /\
+         let c := last_is_cmt (sub_or_init [] n (d_subs (jrun d))) in tok c t ta /\ tok c t (o_main Nb)) /\
+      ns_spec_kf d D ns' rest'
+  | _, _ => False
+  end.
+
+Definition C10_spec_kf (jd : list jelem) (os : list dobs) : Prop :=
+  exists D M rest, os = D :: M :: rest /\
+    o_src D = render_doc jd /\ o_src M = main_only (doc_of jd) /\
+    is_perr (o_res D) = false /\ o_res D = o_res M /\
+    tok (last_is_cmt (d_main (jrun (doc_of jd)))) (o_main D) (o_main M) /\
+    List.length (o_subs D) = List.length (ns_names (doc_of jd)) /\
+    ns_spec_kf (doc_of jd) D (ns_names (doc_of jd)) rest.
+
+Lemma table_check_tok c got want : table_check c got want <> TBad -> tok c got want.
+Proof.
+  destruct (table_check c got want) eqn:E; intros H.
+  - left. eapply table_check_eq, E.
+  - right. apply table_check_kf in E as (A & B & _). auto.
+  - congruence.
+Qed.
+
+Lemma tc_and_nb a b : tc_and a b <> TBad -> a <> TBad /\ b <> TBad.
+Proof. destruct a, b; cbn; intros H; split; congruence. Qed.
+
+Lemma ns_checks_nb d D ns rest r : ns_checks d D ns rest = Some r -> r <> TBad -> ns_spec_kf d D ns rest.
+Proof.
+  revert rest r. induction ns as [|n ns IH]; intros rest r H Hr.
+  - destruct rest; [exact I|discriminate].
+  - destruct rest as [|Na [|Nb rest]]; try discriminate. cbn [ns_checks] in H.
+    destruct (ns_check d D n Na Nb) as [a|] eqn:Ea; [|discriminate].
+    destruct (ns_checks d D ns rest) as [b|] eqn:Eb; [|discriminate].
+    injection H as H. subst r. apply tc_and_nb in Hr as [Ha Hb].
+    cbn [ns_spec_kf]. unfold ns_check in Ea.
+    destruct (String.eqb (o_src Na) (ns_only n d) && String.eqb (o_src Nb) (ns_flat n d)) eqn:Es; [|discriminate].
+    apply andb_prop in Es as [Es1 Es2]. apply String.eqb_eq in Es1, Es2.
+    destruct (lookup n (o_subs D)) as [t|] eqn:El; [|injection Ea as Ea; congruence].
+    destruct (lookup n (o_subs Na)) as [ta|] eqn:Ela; [|injection Ea as Ea; congruence].
+    injection Ea as Ea. subst a. apply tc_and_nb in Ha as [E1 E2].
+    apply table_check_tok in E1, E2.
+    repeat split; try assumption.
+    + exists t, ta. cbv zeta. auto.
+    + eapply IH; eassumption.
+Qed.
+
+Theorem judge_doc_kf_sound stream jd os :
+  judge_doc stream jd os = Some (v_kf "comment-resets-ans") -> C10_spec_kf jd os.
+Proof.
+  unfold judge_doc. destruct os as [|D [|M rest]]; try discriminate.
+  destruct (String.eqb (o_src D) (render_doc jd) && String.eqb (o_src M) (main_only (doc_of jd))) eqn:Es;
+    cbn [negb]; [|discriminate].
+  apply andb_prop in Es as [Es1 Es2]. apply String.eqb_eq in Es1, Es2.
+  destruct (is_perr (o_res M)); [discriminate|].
+  destruct (is_perr (o_res D)) eqn:Ep.
+  { destruct (negb (String.eqb stream "plain")); [discriminate|]. destruct (kf_list_dash (doc_of jd)); discriminate. }
+  destruct (ns_checks (doc_of jd) D (ns_names (doc_of jd)) rest) as [nsr|] eqn:En; [|discriminate].
+  destruct (sx_eqb (o_res D) (o_res M)) eqn:Er; cbn [negb]; [|discriminate].
+  destruct (Nat.eqb (List.length (o_subs D)) (List.length (ns_names (doc_of jd)))) eqn:El; cbn [negb]; [|discriminate].
+  destruct (table_check (last_is_cmt (d_main (jrun (doc_of jd)))) (o_main D) (o_main M)) eqn:Et;
+    destruct nsr eqn:Ensr; try discriminate; intros _;
+    (exists D, M, rest; repeat split; try assumption;
+     [apply sx_eqb_eq, Er | apply table_check_tok; congruence | apply Nat.eqb_eq, El
+     | eapply ns_checks_nb; [exact En|congruence]]).
 Qed.
